@@ -495,3 +495,86 @@ func TestC06_R_LinkSystemsAreIndependent(t *testing.T) {
 		}
 	}
 }
+
+// Files of several MiB (and one beyond 64 MiB) that end in empty chunks, hand-assembled with consistent sizes, flat and
+// with an intermediate level: every access kind has to request every block, the trailing empty ones included, and has to
+// fail when any one of them is unavailable - a reader that stops as soon as it has FileSize bytes never gets to them.
+func TestC06_R_MultiMiBFilesWithTrailingEmptyChunks(t *testing.T) {
+	accesses := []string{"reifier", "preload-selector", "entity-selector", "entity-walk-of-probed-node", "reifier-via-reifying-ls", "NewUnixFSFileWithPreload(reified)", "entity-selector+seeking-consumer", "entity-selector+AsBytes-consumer"}
+	for _, c := range []struct {
+		leaves, leafLen int
+		threeLevels     bool
+	}{{5, 1 << 20, false}, {6, 1 << 20, true}, {66, 1 << 20, false}} {
+		interior := func(kids []*mnode, sizes []uint64) (*mnode, uint64) {
+			m := &mnode{HasData: true, UFS: &ufsFields{Type: 2}}
+			tot := uint64(0)
+			for i, k := range kids {
+				m.Links = append(m.Links, mlink{Tsize: i64p(int64(sizes[i])), Child: k})
+				m.UFS.BlockSizes = append(m.UFS.BlockSizes, sizes[i])
+				tot += sizes[i]
+			}
+			m.UFS.FileSize = u64p(tot)
+			return m, tot
+		}
+		var kids []*mnode
+		var sizes []uint64
+		for i := 0; i < c.leaves; i++ {
+			kids = append(kids, &mnode{IsRaw: true, Raw: lcgBytes(c.leafLen, byte(i+1), 0)})
+			sizes = append(sizes, uint64(c.leafLen))
+		}
+		// two trailing empty chunks: an empty raw block and an empty dag-pb file leaf
+		kids = append(kids, &mnode{IsRaw: true, Raw: nil}, &mnode{HasData: true, UFS: &ufsFields{Type: 2, FileSize: u64p(0)}})
+		sizes = append(sizes, 0, 0)
+		var root *mnode
+		if c.threeLevels {
+			a, as := interior(kids[:3], sizes[:3])
+			b, bs := interior(kids[3:], sizes[3:])
+			root, _ = interior([]*mnode{a, b}, []uint64{as, bs})
+		} else {
+			root, _ = interior(kids, sizes)
+		}
+		st := NewStore()
+		rc, err := root.store(st, st.LinkSystem())
+		if err != nil {
+			t.Fatal(err)
+		}
+		ft, err := st.FileTree(rc, 0)
+		if err != nil {
+			t.Fatal(err)
+		}
+		entity := ft.PreOrder()
+		target := &tnode{Root: rc, Entity: entity}
+		desc := fmt.Sprintf("%d x %d bytes + 2 empty chunks, three levels: %v", c.leaves, c.leafLen, c.threeLevels)
+		acc := accesses
+		if c.leaves > 10 {
+			acc = []string{"reifier", "entity-selector+AsBytes-consumer"} // (the 66 MiB file: two routes, one streaming and one taking the whole value)
+		}
+		for _, access := range acc {
+			if access == "reifier-via-reifying-ls" || access == "NewUnixFSFileWithPreload(reified)" {
+				continue // (these two routes re-read a whole sub-file per Read call - tens of seconds at this size; they are exercised on the generated files, up to hundreds of KiB)
+			}
+			log, err, p := c06Access(st, target, target, "", access)
+			if p != nil || err != nil {
+				t.Fatalf("C06 [%s via %s]: fault-free access failed: %v %v", desc, access, err, p)
+			}
+			got := cidSet(log)
+			for i, b := range entity[1:] {
+				if !got[b] {
+					t.Fatalf("C06 [%s via %s]: block #%d of %d (%s) was never requested", desc, access, i+1, len(entity)-1, b)
+				}
+			}
+			// the trailing (empty) blocks and one content block unavailable, in turn
+			for _, i := range []int{len(entity) - 1, len(entity) - 2, len(entity) - 3} {
+				st.Missing = map[cid.Cid]bool{entity[i]: true}
+				_, ferr, p := c06Access(st, target, target, "", access)
+				st.Missing = map[cid.Cid]bool{}
+				if p != nil {
+					t.Fatalf("C06 [%s via %s] block #%d missing: panic %v", desc, access, i, p)
+				}
+				if ferr == nil {
+					t.Fatalf("C06 [%s via %s]: block #%d of %d (%s) unavailable but the access reported success", desc, access, i, len(entity)-1, entity[i])
+				}
+			}
+		}
+	}
+}
